@@ -508,4 +508,262 @@ theorem ev_readFields : ∀ (cs : List Codec), (∀ c ∈ cs, Halts env c) →
     · refine Ev.bind ((h c (by simp)).read _ _) (fun _ _ => ?_)
       exact ev_readFields cs (fun c' hc' => h c' (by simp [hc'])) _ _ _
 
+/-! ### Every codec tree -/
+
+theorem halts_array (hs : env.Sane) {item : Codec} (hT : Halts env item) (oe : Bool) :
+    Halts env (.array item oe) := by
+  have h1 := fun bs acc => ev_readArrayBlocks env hs hT (bs.length + 1) bs acc (Nat.lt_succ_self _)
+  have h2 := fun keyed bs => ev_skipBlocks env hs hT keyed (bs.length + 1) bs (Nat.lt_succ_self _)
+  constructor
+  · intro bs dst; apply Ev.succ; simp only [read, Outcome.bind_eq, Outcome.pure_eq]
+    split
+    · refine Ev.bind (h1 _ _) (fun _ _ => ?_); ev_tac
+    · ev_tac
+  · intro bs; apply Ev.succ; simp only [skip]; exact h2 _ _
+
+theorem halts_map (hs : env.Sane) {val : Codec} (hT : Halts env val) (oe : Bool) :
+    Halts env (.map val oe) := by
+  have h1 := fun bs ks vs => ev_readMapBlocks env hs hT (bs.length + 1) bs ks vs (Nat.lt_succ_self _)
+  have h2 := fun keyed bs => ev_skipBlocks env hs hT keyed (bs.length + 1) bs (Nat.lt_succ_self _)
+  constructor
+  · intro bs dst; apply Ev.succ; simp only [read, Outcome.bind_eq, Outcome.pure_eq]
+    split
+    · refine Ev.bind (h1 _ _ _) (fun _ _ => ?_); ev_tac
+    · ev_tac
+  · intro bs; apply Ev.succ; simp only [skip]; exact h2 _ _
+
+theorem halts_pointer {c : Codec} (hT : Halts env c) : Halts env (.pointer c) := by halts_tac
+
+theorem halts_unionOne {c : Codec} (hT : Halts env c) (nn : Nat) : Halts env (.unionOne c nn) := by halts_tac
+
+theorem halts_record (z : List GoVal) {cs : List Codec} (h : ∀ c ∈ cs, Halts env c) (ts : List (Option Nat)) :
+    Halts env (.record z cs ts) := by
+  constructor
+  · intro bs dst; apply Ev.succ; simp only [read, Outcome.bind_eq, Outcome.pure_eq]
+    split
+    · refine Ev.bind (ev_readFields env cs h _ _ _) (fun _ _ => ?_); ev_tac
+    · ev_tac
+  · intro bs; apply Ev.succ; simp only [skip]; exact ev_skipFields env cs h _
+
+theorem halts_union {cs : List Codec} (h : ∀ c ∈ cs, Halts env c) : Halts env (.union cs) := by
+  constructor
+  · intro bs dst; apply Ev.succ; simp only [read, Outcome.bind_eq, Outcome.pure_eq]
+    refine Ev.bind (Ev.const (rdVarint_ne_fuel _)) (fun _ _ => ?_)
+    split
+    · ev_tac
+    · split
+      · rename_i c' hc'
+        exact (h c' (List.mem_of_getElem? hc')).read _ _
+      · ev_tac
+  · intro bs; apply Ev.succ; simp only [skip, Outcome.bind_eq, Outcome.pure_eq]
+    refine Ev.bind (Ev.const (rdVarint_ne_fuel _)) (fun _ _ => ?_)
+    split
+    · ev_tac
+    · split
+      · rename_i c' hc'
+        exact (h c' (List.mem_of_getElem? hc')).skip _
+      · ev_tac
+
+/-- **Termination.** With custom codecs that do not lengthen their input, `read` and `skip` of
+every codec tree reach, on every input and destination, a budget from which on the outcome is one
+and the same and is not `.fuel`. -/
+theorem halts (hs : env.Sane) : ∀ c, Halts env c
+  | .null => halts_null env
+  | .bool _ => halts_bool env _
+  | .int _ _ => halts_int env _ _
+  | .float _ => halts_float env _
+  | .double _ => halts_double env _
+  | .f32double _ => halts_f32double env _
+  | .bytes _ => halts_bytes env _
+  | .string _ => halts_string env _
+  | .fixed _ => halts_fixed env _
+  | .array item _ => halts_array env hs (halts hs item) _
+  | .map val _ => halts_map env hs (halts hs val) _
+  | .pointer c => halts_pointer env (halts hs c)
+  | .record _ cs _ => halts_record env _ (fun c _ => halts hs c) _
+  | .union cs => halts_union env (fun c _ => halts hs c)
+  | .unionOne c _ => halts_unionOne env (halts hs c) _
+  | .unionNullString _ _ => halts_unionNullString env _ _
+  | .timeString => halts_timeString env
+  | .timeLong _ => halts_timeLong env _
+  | .date => halts_date env
+  | .nullw _ => halts_nullw env _
+  | .custom _ => halts_custom env _
+
+/-! ### Why `Env.Sane` is needed -/
+
+/-- an environment whose custom codec 0 "un-reads": it returns two bytes `[2, 0]` of unread input
+whatever it is given -/
+def envGrow : Env where
+  widen := id
+  narrow := id
+  fmtTime := fun _ => []
+  parseTime := fun _ => none
+  ofNanos := fun _ => TimeVal.zero
+  ofDays := fun _ => TimeVal.zero
+  custom := fun _ =>
+    { read := fun _ => some (.unit, [2, 0]), skip := fun _ => some [2, 0], write := fun _ => [],
+      omits := fun _ => false, zero := .unit }
+
+theorem envGrow_not_sane : ¬ envGrow.Sane := by
+  intro h
+  have := h.skip 0 [] [2, 0] rfl
+  simp at this
+
+theorem skipItems_envGrow (n : Nat) :
+    skipItems envGrow n false (.custom 0) 1 [0] = .fuel ∨ skipItems envGrow n false (.custom 0) 1 [0] = .ok [2, 0] := by
+  rcases n with _ | _ | _ | n
+  · left; rfl
+  · left; rfl
+  · right; rfl
+  · right; rfl
+
+/-- without `Env.Sane` the model does not terminate: the array block `[2, 0]` (one item, then the
+end marker) skipped with an item codec that hands `[2, 0]` back is skipped again and again -/
+theorem skipBlocks_diverges : ∀ n, skipBlocks envGrow n false (.custom 0) [2, 0] = .fuel
+  | 0 => rfl
+  | n + 1 => by
+    have h1 : rdVarint [2, 0] = .ok (1, [0]) := by rfl
+    simp only [skipBlocks, Outcome.bind_eq, Outcome.pure_eq, h1, Outcome.bind_ok']
+    have h2 : ¬ ((1 : Int) = 0) := by decide
+    have h3 : ¬ ((1 : Int) < 0) := by decide
+    simp only [h2, h3, if_false]
+    have h4 : (1 : Int).toNat = 1 := rfl
+    rw [h4]
+    rcases skipItems_envGrow n with h | h <;> rw [h]
+    · rfl
+    · simp only [Outcome.bind_ok']; exact skipBlocks_diverges n
+
+theorem skip_diverges (n : Nat) : skip envGrow n (.array (.custom 0) false) [2, 0] = .fuel := by
+  cases n with
+  | zero => rfl
+  | succ n => simp only [skip]; exact skipBlocks_diverges n
+
+theorem readMapItems_envGrow (n : Nat) (ks : List Bytes) (vs : List GoVal) :
+    readMapItems envGrow n (.custom 0) 1 [0] ks vs = .fuel ∨
+    ∃ ks' vs', readMapItems envGrow n (.custom 0) 1 [0] ks vs = .ok ((ks', vs'), [2, 0]) := by
+  rcases n with _ | _ | _ | n
+  · left; rfl
+  · left; rfl
+  · right; exact ⟨_, _, rfl⟩
+  · right; exact ⟨_, _, rfl⟩
+
+theorem readMapBlocks_diverges : ∀ n ks vs, readMapBlocks envGrow n (.custom 0) [2, 0] ks vs = .fuel
+  | 0, _, _ => rfl
+  | n + 1, ks, vs => by
+    have h1 : rdVarint [2, 0] = .ok (1, [0]) := by rfl
+    simp only [readMapBlocks, Outcome.bind_eq, Outcome.pure_eq, h1, Outcome.bind_ok']
+    have h2 : ¬ ((1 : Int) = 0) := by decide
+    have h3 : blockCount 1 [0] = .ok (1, [0]) := by rfl
+    simp only [h2, h3, if_false, Outcome.bind_ok']
+    rcases readMapItems_envGrow n ks vs with h | ⟨ks', vs', h⟩ <;> rw [h]
+    · rfl
+    · simp only [Outcome.bind_ok']; exact readMapBlocks_diverges n _ _
+
+/-- the same for `read`: no budget suffices -/
+theorem read_diverges (n : Nat) :
+    read envGrow n (.map (.custom 0) false) [2, 0] (.map true [] []) = .fuel := by
+  cases n with
+  | zero => rfl
+  | succ n => simp only [read, Outcome.bind_eq, readMapBlocks_diverges n, Outcome.bind_fuel']
+
+/-! ### A sane environment (non-vacuity of `Env.Sane`) -/
+
+/-- an environment whose custom codecs read one varint (a user-defined integer type) -/
+def envVarint : Env where
+  widen := id
+  narrow := id
+  fmtTime := fun _ => []
+  parseTime := fun _ => none
+  ofNanos := fun _ => TimeVal.zero
+  ofDays := fun _ => TimeVal.zero
+  custom := fun cid =>
+    { read := fun bs => match readVarint bs with
+        | .ok (v, r) => some (.opaque cid (writeVarint v), r)
+        | .error _ => none
+      skip := fun bs => match readVarint bs with
+        | .ok (_, r) => some r
+        | .error _ => none
+      write := fun g => match g with | .opaque _ b => b | _ => []
+      omits := fun _ => false
+      zero := .opaque cid [0] }
+
+theorem envVarint_sane : envVarint.Sane := by
+  constructor
+  · intro cid bs v r h
+    simp only [envVarint] at h
+    split at h
+    · rename_i hv; cases h; exact Nat.le_of_lt (readVarint_len hv)
+    · cases h
+  · intro cid bs r h
+    simp only [envVarint] at h
+    split at h
+    · rename_i hv; cases h; exact Nat.le_of_lt (readVarint_len hv)
+    · cases h
+
+/-! ### `skip` has no destination: it is never `stuck` -/
+
+theorem skipN_ne_stuck (l : Int) (bs : Bytes) : skipN l bs ≠ .stuck := by
+  unfold skipN next
+  split <;> rename_i h <;> split at h <;> (try split at h) <;> simp_all
+
+theorem skipVar_ne_stuck (bs : Bytes) : skipVar bs ≠ .stuck := by
+  unfold skipVar; split <;> simp
+
+theorem skipLen_ne_stuck (bs : Bytes) : skipLen bs ≠ .stuck := by
+  unfold skipLen; split
+  · exact skipN_ne_stuck _ _
+  · simp
+
+theorem rdVarint_ne_stuck (bs : Bytes) : rdVarint bs ≠ .stuck := by
+  unfold rdVarint; split <;> simp
+
+theorem rdByte_ne_stuck (bs : Bytes) : rdByte bs ≠ .stuck := by
+  cases bs <;> simp [rdByte]
+
+theorem Outcome.bind_ne_stuck {α β : Type} {o : Outcome α} {f : α → Outcome β}
+    (h1 : o ≠ .stuck) (h2 : ∀ a, f a ≠ .stuck) : Outcome.bind o f ≠ .stuck := by
+  cases o with
+  | ok a => exact h2 a
+  | stuck => exact absurd rfl h1
+  | _ => simp [Outcome.bind]
+
+structure SkipNoStuckAt (n : Nat) : Prop where
+  skip : ∀ c bs, skip env n c bs ≠ .stuck
+  skipFields : ∀ cs bs, skipFields env n cs bs ≠ .stuck
+  skipBlocks : ∀ keyed item bs, skipBlocks env n keyed item bs ≠ .stuck
+  skipItems : ∀ keyed item k bs, skipItems env n keyed item k bs ≠ .stuck
+
+syntax "ns_tac" : tactic
+macro_rules
+  | `(tactic| ns_tac) => `(tactic| repeat' (first
+      | exact skipN_ne_stuck _ _
+      | exact skipVar_ne_stuck _
+      | exact skipLen_ne_stuck _
+      | exact rdVarint_ne_stuck _
+      | exact rdByte_ne_stuck _
+      | exact SkipNoStuckAt.skip (by assumption) _ _
+      | exact SkipNoStuckAt.skipFields (by assumption) _ _
+      | exact SkipNoStuckAt.skipBlocks (by assumption) _ _ _
+      | exact SkipNoStuckAt.skipItems (by assumption) _ _ _ _
+      | (refine Outcome.bind_ne_stuck ?_ (fun _ => ?_))
+      | (intro h; cases h)
+      | split))
+
+theorem skipNoStuckAt : ∀ n, SkipNoStuckAt env n := by
+  intro n
+  induction n with
+  | zero => constructor <;> intros <;> simp [skip, skipFields, skipBlocks, skipItems]
+  | succ n ih =>
+    constructor
+    · intro c bs
+      cases c <;> simp only [skip, Outcome.bind_eq, Outcome.pure_eq]
+      all_goals ns_tac
+    · intro cs bs
+      cases cs <;> simp only [skipFields, Outcome.bind_eq] <;> ns_tac
+    · intro keyed item bs
+      simp only [skipBlocks, Outcome.bind_eq, Outcome.pure_eq]; ns_tac
+    · intro keyed item k bs
+      cases k <;> simp only [skipItems, Outcome.bind_eq, Outcome.pure_eq] <;> ns_tac
+
 end Avro
